@@ -31,6 +31,7 @@ class PathResult:
 
 
 STD_ENUMS = {
+    "Sign": {"Minus": 0, "NoSign": 1, "Plus": 2},   # num_bigint::Sign
     "Option": {"None": 0, "Some": 1},
     "Result": {"Ok": 0, "Err": 1},
     "ControlFlow": {"Continue": 0, "Break": 1},
@@ -566,6 +567,9 @@ class Exec:
             else:
                 v = (1 << (b - 1)) if is_signed(ty) else 0
             return Int(v, ty)
+        m = re.match(r"core::num::<impl (u8|u16|u32|u64|usize|i8|i16|i32|i64|isize)>::(MAX|MIN)$", c)
+        if m:
+            return self.eval_const(fr, f"{m.group(1)}::{m.group(2)}")
         if c == "true":
             return Bool(True)
         if c == "false":
@@ -683,6 +687,11 @@ class Exec:
             return Enum(parts[-2], last, self.P.enums[parts[-2]][last], vals)
         if kind == "unit" and len(parts) >= 2 and parts[-2][:1].isupper() and parts[-2] not in self.P.structs:
             return Enum(parts[-2], last, None, vals)
+        if len(parts) == 1 and kind == "unit" and last not in self.P.structs:
+            # rustc prints some foreign unit variants without their enum (e.g. `NoSign`): unique variant name
+            owners = [e for e, vs in self.P.enums.items() if last in vs]
+            if len(owners) == 1:
+                return Enum(owners[0], last, self.P.enums[owners[0]][last], vals)
         if last == "Range":
             return Struct("Range", vals)
         if len(parts) >= 2 and parts[-2][:1].isupper() and last[:1].isupper() and parts[-2] not in ("Self",) and last not in self.P.structs and kind != "struct":
